@@ -23,7 +23,7 @@ theorem same_definition_same_tokenizer (d d' : Definition) (hm : d.model = d'.mo
   Kitoken.Proofs.Sources.new_ignores_metadata d d' hm hs hc
 
 theorem same_definition_same_encoding (d d' : Definition) (hm : d.model = d'.model)
-    (hs : d.specials = d'.specials) (hc : d.config = d'.config) (tk tk' : Tokenizer Float)
+    (hs : d.specials = d'.specials) (hc : d.config = d'.config) (tk tk' : Tokenizer Score)
     (h : Tokenizer.new d = .ok tk) (h' : Tokenizer.new d' = .ok tk') (ext : Ext) (text : Bytes) (s : Bool) :
     tk.encode ext text s = tk'.encode ext text s := by
   rw [same_definition_same_tokenizer d d' hm hs hc, h'] at h
